@@ -138,7 +138,7 @@ class Report:
         if f is not None:
             self.known_hits.setdefault(f["id"], v)
             return False
-        if len(self.violations) < 50:
+        if len(self.violations) < 400:
             self.violations.append(v)
         return True
 
@@ -162,7 +162,7 @@ class Report:
                 "property": self.prop,
                 "tier": self.tier,
                 "seed": self.seed,
-                "violations": concrete[:20],
+                "violations": concrete[:200],
                 "broken_obligations": [{"name": n, "detail": d[-4000:]} for n, d in broken],
                 "replay_cmd": "bin/check %s --replay %s" % (self.prop, os.path.relpath(replay_path, VERIF)),
             }
